@@ -2399,6 +2399,14 @@ func (t *Topic) replySetDesc(sess *Session, asUid types.Uid, asChan bool,
 			return err
 		}
 
+		if set.Desc.Private != nil && (t.cat == types.TopicCatGrp || t.cat == types.TopicCatP2P) {
+			// Private belongs to the subscription of the user the request is executed as: there must be one.
+			if pud, ok := t.perUser[asUid]; !ok || pud.deleted {
+				sess.queueOut(ErrNotFoundReply(msg, now))
+				return errors.New("attempt to set private value by a non-subscriber")
+			}
+		}
+
 		sendPriv = assignGenericValues(sub, "Private", t.perUser[asUid].private, set.Desc.Private)
 	}
 
